@@ -726,8 +726,28 @@ void j_angle_fn(Ctx & c, int64_t d, int64_t, int64_t)
       }
     }
   }
+Fn A2R_I128, A2R_I128_SUP;
+// angle_to_radians(__int128) in GNU-dialect configurations: angle = (b >> 8) * 2^(b & 0x7f) + a
+void j_a2r_i128(Ctx & c, int64_t lo, int64_t enc, int64_t)
+  {
+  if((enc & 0x80) || lo < INT32_MIN || lo > INT32_MAX) return;
+  int sh = (int)(enc & 0x7f); if(sh > 70) sh = 70;
+  i128 d = (i128)(enc >> 8) * ((i128)1 << sh) + lo;
+  bool in = d >= 0 && d <= 360;
+  c.stratum(in ? "int128-angle-in-range" : "int128-angle-outside"); c.nontrivial(hash3(220, lo, enc));
+  long double e = (long double)(int64_t)(in ? d : 0) * PI_L / 180.0L * 65536.0L;
+  for(size_t ci = 0; ci < g_cfgs.size(); ++ci)
+    {
+    if(A2R_I128_SUP.f[ci](0, 0) == 0) continue;
+    CallRes r = c.call(A2R_I128.f[ci], lo, enc);
+    if(r.sig) { c.signal_event((int)ci, "a2r_i128", lo, enc, r.sig); continue; }
+    if(in) { if(model_isnan(r.v) || fabsl((long double)r.v - e) > 2.0L + SLACK * 65536) c.violation("a2r_i128/in-[0,360]/wrong", (int)ci, lo, enc, 0, i2s(r.v), ld2s(e)); }
+    else if(!model_isnan(r.v)) c.violation("a2r_i128/outside-[0,360]/not-nan", (int)ci, lo, enc, 0, i2s(r.v), "NaN");
+    }
+  }
 void c20_init()
   {
+  A2R_I128 = resolve("a2r_i128"); A2R_I128_SUP = resolve("i128_supported");
   for(int i = 0; i < N_INT; ++i) A2R[i] = resolve((std::string("a2r_") + INT_TYPES[i].tag).c_str());
   const char * car[12] = { "i8", "i16", "i32", "i64", "u8", "u16", "u32", "u64", "f32", "fix", "ll", "ull" };
   for(int i = 0; i < 12; ++i) { std::string t = car[i]; SINA[i] = resolve(("sin_angle_" + t).c_str()); COSA[i] = resolve(("cos_angle_" + t).c_str()); TANA[i] = resolve(("tan_angle_" + t).c_str()); }
@@ -748,12 +768,17 @@ void c20_run(Ctx & c)
       }
     }
   for(int64_t d = -360 + c.shard; d <= 360; d += c.nshards) c.run_check(P_C20.checks[8], d);
+  { const Check & AI = P_C20.checks[11]; uint64_t ii = 0;
+    for(int64_t lo : { (int64_t)-1, (int64_t)0, (int64_t)1, (int64_t)45, (int64_t)90, (int64_t)359, (int64_t)360, (int64_t)361, (int64_t)-360 })
+      for(int64_t m : { (int64_t)0, (int64_t)1, (int64_t)-1, (int64_t)2, (int64_t)3, (int64_t)-5 }) for(int64_t sh : { 0, 8, 31, 32, 33, 63, 64, 65, 70 }) if(c.mine(ii++)) c.run_check(AI, lo, m * 256 + sh);
+    uint64_t n = c.share(c.n(20000, 2000000)); for(uint64_t i = 0; i < n; ++i) c.run_check(AI, c.rng.range(-400, 400), c.rng.range(-9, 9) * 256 + c.rng.range(0, 70)); }
   }
 Property P_C20 = { "C20", c20_init, c20_run,
   { { "a2r_i8", j_a2r<0>, "angle_to_radians<T>(d); a = value of the type" }, { "a2r_i16", j_a2r<1>, "" }, { "a2r_i32", j_a2r<2>, "" }, { "a2r_i64", j_a2r<3>, "" },
     { "a2r_u8", j_a2r<4>, "" }, { "a2r_u16", j_a2r<5>, "" }, { "a2r_u32", j_a2r<6>, "" }, { "a2r_u64", j_a2r<7>, "" },
     { "angle_fn", j_angle_fn, "sin_angle/cos_angle/tan_angle(d) for every carrier type that can hold d; a = d in [-360,360]" },
-    { "a2r_ll", j_a2r<8>, "long long" }, { "a2r_ull", j_a2r<9>, "unsigned long long" } },
+    { "a2r_ll", j_a2r<8>, "long long" }, { "a2r_ull", j_a2r<9>, "unsigned long long" },
+    { "a2r_i128", j_a2r_i128, "__int128 carrier (GNU-dialect configurations): angle = (b >> 8) * 2^(b & 0x7f) + a" } },
   { "angle-in-[0,360]", "angle-outside", "angle>127-in-8bit-carrier", "degree-argument" },
   "d in [0,360] or adjacent (-1, 361) for angle_to_radians; every d in [-360,360] for the *_angle functions; distinct by (d,type)",
   { "every value of the 8/16-bit types for angle_to_radians", "every d in [-360,360] x every carrier type" },
